@@ -122,7 +122,8 @@ def execCmd : Exec ByteArray := fun stg w =>
         let ws := delPath ws comps
         if isDirOut then
           setPath ws comps (.dir [(str "f", .file (ba (payload ++ str "#f"))),
-                                  (str "sub", .dir [(str "g", .file (ba (payload ++ str "#g")))])])
+                                  (str "sub", .dir [(str "deep", .dir [(str "h", .file (ba (payload ++ str "#h")))]),
+                                                    (str "g", .file (ba (payload ++ str "#g")))])])
         else setPath ws comps (.file (ba (payload ++ str "@" ++ o)))) (some w.ws)
     match ws' with
     | none => .error .other
